@@ -180,15 +180,14 @@ def step_harness(log):
     return True, ""
 
 
-def run_engine(prop, eng, tier, seed, log, extra=None):
-    n = eng.get("n_" + tier, eng.get("n_quick", 100))
-    outp = os.path.join(OUT, "%s_%s_%s_%d.json" % (prop, eng["name"], eng.get("mode", "x"), os.getpid()))
-    cmd = [os.path.join(BIN, "zvh"), eng["name"], "-prop", prop, "-seed", str(seed), "-n", str(n),
+def run_engine_once(prop, eng, tier, seed, log, n, frm, extra, tag):
+    outp = os.path.join(OUT, "%s_%s_%s_%d_%s.json" % (prop, eng["name"], eng.get("mode", "x"), os.getpid(), tag))
+    cmd = [os.path.join(BIN, "zvh"), eng["name"], "-prop", prop, "-seed", str(seed), "-n", str(n), "-from", str(frm),
            "-tier", tier, "-out", outp]
     if eng.get("mode"):
         cmd += ["-mode", eng["mode"]]
     corpus = os.path.join(ROOT, "corpus", prop)
-    if os.path.isdir(corpus):
+    if os.path.isdir(corpus) and frm == 0:
         cmd += ["-corpus", corpus]
     if extra:
         cmd += extra
@@ -198,7 +197,7 @@ def run_engine(prop, eng, tier, seed, log, extra=None):
         rc, out = run(cmd, env=env, timeout=eng.get("timeout_" + tier, 3600))
     except subprocess.TimeoutExpired:
         return None, "engine %s timed out" % eng["name"]
-    log.append("engine %s rc=%d %.1fs %s" % (eng["name"], rc, time.time() - t0, out[-500:].strip()))
+    log.append("engine %s[%s] rc=%d %.1fs %s" % (eng["name"], tag, rc, time.time() - t0, out[-500:].strip()))
     if not os.path.exists(outp):
         return None, "engine %s produced no result (rc=%d): %s" % (eng["name"], rc, out[-800:])
     res = json.load(open(outp))
@@ -206,6 +205,49 @@ def run_engine(prop, eng, tier, seed, log, extra=None):
     if rc != 0:
         return res, "engine %s failed (rc=%d): %s" % (eng["name"], rc, out[-800:])
     return res, ""
+
+
+def merge_results(parts):
+    parts = [p for p in parts if p]
+    if not parts:
+        return None
+    m = dict(parts[0])
+    for k in ("evaluations", "distinct_nontrivial", "n_disagreements", "inconclusive", "traces_validated_against_impl"):
+        m[k] = sum(p.get(k, 0) or 0 for p in parts)
+    for k in ("histogram", "by_detail", "known_findings_seen"):
+        d = {}
+        for p in parts:
+            for kk, v in (p.get(k) or {}).items():
+                d[kk] = d.get(kk, 0) + v
+        m[k] = d
+    m["disagreements"] = [d for p in parts for d in (p.get("disagreements") or [])]
+    m["samples"] = [x for p in parts for x in (p.get("samples") or [])][:4]
+    m["notes"] = [x for p in parts for x in (p.get("notes") or [])]
+    m["exhaustive"] = all(p.get("exhaustive", False) for p in parts)
+    m["wall_s"] = max(p.get("wall_s", 0) for p in parts)
+    return m
+
+
+def run_engine(prop, eng, tier, seed, log, extra=None):
+    n = eng.get("n_" + tier, eng.get("n_quick", 100))
+    shards = eng.get("shards_" + tier, eng.get("shards", 1))
+    if extra and "-replay" in extra:
+        shards = 1
+    if shards <= 1 or n < shards:
+        return run_engine_once(prop, eng, tier, seed, log, n, 0, extra, "0")
+    import concurrent.futures
+    per = (n + shards - 1) // shards
+    jobs = []
+    with concurrent.futures.ThreadPoolExecutor(max_workers=min(shards, 16)) as ex:
+        for i in range(shards):
+            frm = i * per
+            cnt = min(per, n - frm)
+            if cnt <= 0:
+                break
+            jobs.append(ex.submit(run_engine_once, prop, eng, tier, seed, log, cnt, frm, extra, str(i)))
+        outs = [j.result() for j in jobs]
+    errs = [e for _, e in outs if e]
+    return merge_results([r for r, _ in outs]), ("; ".join(errs) if errs else "")
 
 
 def write_replay(prop, payload):
@@ -251,6 +293,7 @@ def main():
     log = []
     broken = []       # (what, detail): proof obligations / tie parts that no longer check
     violations = []   # disagreements whose property oracle fails (not known)
+    broken_cases = []  # first model-vs-impl disagreement per engine, in full (replayable by seed/index)
     os.makedirs(OUT, exist_ok=True)
 
     ok, detail = step_extract(log)
@@ -283,14 +326,24 @@ def main():
             for d in (res.get("disagreements") or []):
                 d["engine"] = eng["name"]
                 d["mode"] = eng.get("mode", "")
-                if d.get("property_fails"):
+                if d.get("property_fails") and d.get("prop", "") in ("", prop):
                     violations.append(d)
             nd = res.get("n_disagreements", 0)
             nprop = sum(v for k, v in res.get("by_detail", {}).items() if k.startswith("property"))
+            other = [d for d in (res.get("disagreements") or []) if d.get("property_fails") and d.get("prop", "") not in ("", prop)]
+            if other:
+                log.append("note: %d property failure(s) belonging to other properties (%s) seen by engine %s; reported by their own checks" % (
+                    len(other), sorted({d.get("prop") for d in other}), eng["name"]))
             if nd - nprop > 0:
                 mv = [d for d in (res.get("disagreements") or []) if not d.get("property_fails")]
                 broken.append(("correspondence engine %s: model and implementation disagree on %d case(s)" % (eng["name"], nd - nprop),
                                json.dumps(mv[:1], default=str)[:3000]))
+                if mv:
+                    first = dict(mv[0])
+                    first["engine"] = eng["name"]
+                    first["mode"] = eng.get("mode", "")
+                    first["seed"] = seed
+                    broken_cases.append(first)
 
     # search for a failing input when something broke but no property failure surfaced yet
     if broken and not violations and hok and not replay:
@@ -335,7 +388,9 @@ def main():
         print("VIOLATION property=%s replay=%s" % (prop, path))
         rc = 1
     elif broken:
-        path = write_replay(prop, {"property": prop, "no_longer_checks": [b[0] for b in broken],
+        bc = broken_cases[0] if broken_cases else {}
+        path = write_replay(prop, {"property": prop, "engine": bc.get("engine"), "mode": bc.get("mode"), "seed": bc.get("seed"),
+                                   "index": bc.get("index"), "disagreement": bc, "no_longer_checks": [b[0] for b in broken],
                                    "details": [b[1] for b in broken], "searched": "engines re-run with fresh seeds; no input violating the property found"})
         print("VIOLATION property=%s replay=%s no-failing-input-found" % (prop, path))
         rc = 1
